@@ -260,6 +260,14 @@ def run(prop, tier, rules, meta, repo="/repo"):
             (": " + ", ".join(selftest["missed"])) if selftest["missed"] else ""))
         for m in selftest["missed"]:
             print("SELFTEST-MISS property=%s patch=%s (the check no longer reports a change it is recorded to report; this is about the checker, not the analysed tree)" % (prop, m))
+        # engine regression guard: a site that is listed as a known finding (triaged as unchecked, its group demonstrated
+        # by a failing input) and that now comes out as *proved* means either the tree repaired it (then the list
+        # needs pruning) or a summary of the abstract interpreter became unsound.  Reported, never a VIOLATION.
+        listed_keys = {k for f in load_table("known_findings.json").get("findings", []) if f.get("property") == prop for k in f.get("site_keys", [])}
+        proved_listed = sorted(i["key"] for i in rep.instances if i["verdict"] == "holds" and i.get("nontrivial") and i["key"] in listed_keys)
+        selftest["listed_sites_now_proved"] = proved_listed
+        for k in proved_listed:
+            print("SELFTEST-NOTE property=%s listed site now proved: %s (repaired in the tree, or an unsound summary in the engine: look before trusting)" % (prop, k))
 
     for fid, f in sorted(kf_present.items()):
         print("KNOWN-FINDING: property=%s %s [%s] %s" % (prop, fid, f.get("rule", ""), f["what_fails"]))
